@@ -1,4 +1,4 @@
-import VermouthModel.C08
+import VermouthModel.C08_Hist
 open Proto C08
 
 def entryOf (t : Tok) : Option Entry := do
@@ -11,6 +11,15 @@ def specOf (t : Tok) : Option Spec := do
   | [ty, c] => pure (← ty.optStr?, ← c.optInt?)
   | _ => none
 
+def hopOf (t : Tok) : Option HOp := do
+  match ← t.list? with
+  | [Tok.str "log", l, ty] => pure (.log (← l.nat?) (← ty.str?))
+  | [Tok.str "count", l, ty] => pure (.countBy ((← l.optInt?).map Int.toNat) (← ty.optStr?))
+  | [Tok.str "leftover", l, specs] => do
+      let ss ← (← specs.list?).mapM (fun g => do (← g.list?).mapM specOf)
+      pure (.leftover ss (← l.nat?))
+  | _ => none
+
 def handle (_ : Unit) (toks : List Tok) : Unit × String :=
   let r : Option String :=
     match toks with
@@ -19,6 +28,9 @@ def handle (_ : Unit) (toks : List Tok) : Unit × String :=
         let es ← (← counter.list?).mapM entryOf
         let ss ← (← specs.list?).mapM (fun g => do (← g.list?).mapM specOf)
         pure (encInt (leftover es ss level))
+    | [Tok.str "hist", ops] => do
+        let os ← (← ops.list?).mapM hopOf
+        pure (encList ((hrun [] os).map encOptInt))
     | [Tok.str "maxwarn", v] => do
         let s ← v.str?
         match parseMaxwarn s.toList with
